@@ -1864,6 +1864,15 @@ impl<'a> Sem<'a> {
         self.w(&fname);
         self.w(" = ");
         self.value(&fty, 1);
+        // a second item for another field of the same class, now and then
+        let more: Vec<(String, Ty)> = cand.iter().filter(|c| c.0 == cname && c.1 != fname).map(|c| (c.1.clone(), c.2.clone())).collect();
+        if !more.is_empty() && self.rng.chance(1, 4) && self.on("let-list") {
+            let (f2, t2) = more[self.rng.below(more.len())].clone();
+            self.w(", ");
+            self.w(&f2);
+            self.w(" = ");
+            self.value(&t2, 1);
+        }
         self.w(" in ");
         self.w("{");
         self.indent += 1;
